@@ -24,6 +24,7 @@ Elems(un) ==
     [] un = "str" -> <<Str(<<97>>), Str(<<66>>), Str(<<98>>)>>
     [] un = "map" -> <<M1(KK, IntV(1)), M1(KK, IntV(2)), M1(JJ, IntV(1)), M1(KK, Nil)>>
     [] un = "int" -> <<IntV(3), IntV(1), IntV(2)>>
+    [] un = "mix" -> <<Nil, Str(<<97>>), IntV(1), Arr(<<IntV(1)>>)>>
 
 RECURSIVE SeqsOfLen(_, _)
 SeqsOfLen(n, m) == IF n = 0 THEN {<<>>} ELSE {<<i>> \o t : i \in 1..m, t \in SeqsOfLen(n - 1, m)}
@@ -36,7 +37,7 @@ CallsOf(un) ==
   \cup [name : {"sort", "map"}, arg : {"k"}, then : {"none"}]
   \cup [name : {"reverse", "sort", "compact", "uniq"}, arg : {"none"}, then : {"reverse", "compact", "sort", "size", "first", "join"}]
 
-Init == /\ u \in {"num", "str", "map", "int"}
+Init == /\ u \in {"num", "str", "map", "int", "mix"}
         /\ \E n \in 0..N : ix \in SeqsOfLen(n, Len(Elems(u)))
         /\ call \in CallsOf(u)
 Next == UNCHANGED vars
